@@ -409,6 +409,23 @@ func visitInstr(fr *frame, instr ssa.Instruction) continuation {
 		*addr = zero(mustDeref(instr.Type()))
 
 	case *ssa.MakeSlice:
+		for _, sz := range []ssa.Value{instr.Cap, instr.Len} {
+			// a size that depends on input: decide negative / huge symbolically
+			// instead of enumerating its values
+			if t, ok := fr.get(sz).(*Term); ok {
+				t64 := fr.asIdxTerm(t, sz.Type())
+				tt := fr.tt()
+				if fr.toBool(fr.vBool(tt.Mk(OSlt, sortBool, 0, t64, tt.BV(64, 0)))) {
+					rtPanic(fr, "makeslice: len out of range")
+				}
+				if fr.toBool(fr.vBool(tt.Mk(OSlt, sortBool, 0, tt.BV(64, 1<<40), t64))) {
+					panic(pathEnd{stViolation, "allocation size controlled by input can exceed 2^40 elements (make at " + fr.pos() + ")"})
+				}
+				if fr.toBool(fr.vBool(tt.Mk(OSlt, sortBool, 0, tt.BV(64, 1<<12), t64))) {
+					panic(pathEnd{stUnsupported, "symbolic allocation size between 2^12 and 2^40 (make at " + fr.pos() + "): bound it in the harness"})
+				}
+			}
+		}
 		c := fr.toIntV(instr.Cap)
 		l := fr.toIntV(instr.Len)
 		if l < 0 {
